@@ -205,6 +205,13 @@ class Recorder:
         tags = tuple(sorted(getattr(self.mod, 'LAST_TAGS', ()) or ()))
         return self.run(case, failures=fs, classes=tags + tuple(kw.pop('classes', ())), **kw)
 
+    def check_tagged(self, case, **kw):
+        """run_tagged() + record a violation immediately (enumerations)."""
+        unknown = self.run_tagged(case, **kw)
+        if unknown:
+            self.note_violation(case, unknown)
+        return unknown
+
     def keep(self, i, every=16):
         """Enumeration thinning for the variant run: every case normally, every `every`-th there."""
         return (not self.reduced) or i % every == 0
